@@ -185,6 +185,14 @@ def run(chk, model_ok=True):
                         fail(f"{s.label} {rec['op']}: {why}", s.line())
                     elif len(samples) < 4 and s.peer.state.auth_alg:
                         samples.append({"session": s.label, "datagram_len": len(dg), "mac_offset": d.get("auth_params_offset")})
+    # the real sync and async clients (engine id given, None or b"", lost discovery probes): every request they emit
+    from props import c13
+    n_cli = 0
+    for key, script, r, why in c13.client_cases(rng, 12 if quick else 300):
+        n_cli += 1
+        if why and any(w in why for w in ("MAC", "auth flag", "msgAuthenticationParameters", "security flags", "failed with")):
+            fail(f"{key}: {why}", f"# client {key}")
+        n_msg += len(script.requests)
     nl, nd = sessions.model_compare(chk, all_sess, model_ok)
     offs = sorted({d[2] for d in distinct if d[2] is not None})
     chk.coverage.update({
@@ -197,7 +205,7 @@ def run(chk, model_ok=True):
                 "RFC 3414 A.2 text and localized to the engine id in the message; plus sign() on random buffers/offsets/keys. "
                 "distinct = distinct (digest, cipher, key type, datagram length, MAC offset).",
         "samples": samples,
-        "messages_checked": n_msg, "per_configuration": dict(sorted(hist.items())),
+        "messages_checked": n_msg, "client_runs": n_cli, "per_configuration": dict(sorted(hist.items())),
         "mac_offsets_seen": [offs[0], offs[-1], len(offs)] if offs else [],
         "session_lines": nl, "session_lines_disagreeing": nd,
         "sign_requests": len(st.lines),
